@@ -147,6 +147,15 @@ func min(a, b int) int {
 
 // Float64Bits yields interesting float64 values.
 func (r *Rng) InterestingFloat64() float64 {
+	for {
+		f := r.interestingFloat64()
+		if f == f && !math.IsInf(f, 0) {
+			return f
+		}
+	}
+}
+
+func (r *Rng) interestingFloat64() float64 {
 	switch r.Intn(14) {
 	case 0:
 		return 0
@@ -193,6 +202,15 @@ func (r *Rng) InterestingFloat64() float64 {
 }
 
 func (r *Rng) InterestingFloat32() float32 {
+	for {
+		f := r.interestingFloat32()
+		if f == f && !math.IsInf(float64(f), 0) {
+			return f
+		}
+	}
+}
+
+func (r *Rng) interestingFloat32() float32 {
 	switch r.Intn(8) {
 	case 0:
 		return 0
